@@ -192,6 +192,18 @@ fn pos_case(out: &mut Out, s: &str, class: &str) -> Option<Result<Position, Stri
     if r.is_none() {
         out.fail("position-panic", &format!("pos {}", enc(s)), &format!("Position::from_str({s:?}) panicked"));
     }
+    // an airport code denotes that airport (codes are unique in airports.json)
+    if let Some(a) = AIRPORTS.iter().find(|a| a.icao == s || a.iata == s) {
+        match &r {
+            Some(Ok(p)) if same_f(p.latitude, a.lat) && same_f(p.longitude, a.lon) => {}
+            Some(other) => out.fail(
+                "airport-code",
+                &format!("pos {}", enc(s)),
+                &format!("code {s} is {} at {} {} but resolved to {other:?}", a.name, a.lat, a.lon),
+            ),
+            None => {}
+        }
+    }
     r
 }
 
@@ -252,8 +264,19 @@ fn ser_case(out: &mut Out, words: &[&str]) -> Option<u64> {
 }
 
 // ---------------------------------------------------------------- well-formed specifications
+#[derive(Clone, Copy, PartialEq)]
+enum Form {
+    /// scheme://host:port[/path]
+    Full,
+    /// tcp://host — Radarcape's port 10003 (doc comment of `Address::Tcp`, docs/sources.md)
+    TcpNoPort,
+    /// :port — `[host:]port[@reference]` of the command-line help: all interfaces
+    PortOnly,
+}
+
 #[derive(Clone)]
 struct Spec {
+    form: Form,
     scheme: &'static str,
     host: String,
     port: u16,
@@ -263,16 +286,29 @@ struct Spec {
 }
 impl Spec {
     fn text(&self) -> String {
-        let mut s = format!("{}://{}:{}{}", self.scheme, self.host, self.port, self.path);
+        let mut s = match self.form {
+            Form::Full => format!("{}://{}:{}{}", self.scheme, self.host, self.port, self.path),
+            Form::TcpNoPort => format!("tcp://{}", self.host),
+            Form::PortOnly => format!(":{}", self.port),
+        };
         if let Some((r, _, _)) = &self.reference {
             s.push_str(self.sep);
             s.push_str(r);
         }
         s
     }
+    /// host and port of the endpoint the text denotes
+    fn host_port(&self) -> (String, u16) {
+        match self.form {
+            Form::Full => (self.host.clone(), self.port),
+            Form::TcpNoPort => (self.host.clone(), 10003),
+            Form::PortOnly => ("0.0.0.0".into(), self.port),
+        }
+    }
     /// the endpoint the property prescribes, written from the documentation (docs/sources.md)
     fn expected(&self) -> (&'static str, String) {
-        let hp = format!("{}:{}", self.host, self.port);
+        let (h, p) = self.host_port();
+        let hp = format!("{h}:{p}");
         match self.scheme {
             "tcp" => ("tcp", hp),
             "udp" => ("udp", hp),
@@ -350,7 +386,14 @@ fn gen_spec(rng: &mut Rng) -> Spec {
         }
         _ => Some(gen_latlon(rng)),
     };
-    Spec { scheme, host, port, path, sep: if rng.chance(1, 3) { "?" } else { "@" }, reference }
+    let form = match rng.below(8) {
+        0 => Form::TcpNoPort,
+        1 => Form::PortOnly,
+        _ => Form::Full,
+    };
+    let (scheme, path) = if form == Form::Full { (scheme, path) } else { ("tcp", String::new()) };
+    let host = if form != Form::Full && scheme == "tcp" && host.starts_with("serial=") { gen_host(rng) } else { host };
+    Spec { form, scheme, host, port, path, sep: if rng.chance(1, 3) { "?" } else { "@" }, reference }
 }
 
 fn same_f(a: f64, b: f64) -> bool {
@@ -362,7 +405,12 @@ fn same_f(a: f64, b: f64) -> bool {
 fn wellformed(out: &mut Out, sp: &Spec, batch: &mut Vec<(String, u64)>) {
     let text = sp.text();
     let input = format!("src {}", enc(&text));
-    let r = src_case(out, &text, &format!("wellformed-{}", sp.scheme));
+    let class = match sp.form {
+        Form::Full => format!("wellformed-{}", sp.scheme),
+        Form::TcpNoPort => "wellformed-tcp-noport".to_string(),
+        Form::PortOnly => "wellformed-portonly".to_string(),
+    };
+    let r = src_case(out, &text, &class);
     let src = match r {
         Some(Ok(s)) => s,
         Some(Err(e)) => {
@@ -389,9 +437,10 @@ fn wellformed(out: &mut Out, sp: &Spec, batch: &mut Vec<(String, u64)>) {
     });
     // string form vs table form of the same endpoint
     let serial = src.serial();
-    let hp = format!("{}:{}", sp.host, sp.port);
+    let (eh, ep) = sp.host_port();
+    let hp = format!("{eh}:{ep}");
     let forms: Vec<Vec<String>> = match sp.scheme {
-        "tcp" => vec![vec!["short".into(), enc(&hp)], vec!["long".into(), enc(&sp.host), sp.port.to_string()]],
+        "tcp" => vec![vec!["short".into(), enc(&hp)], vec!["long".into(), enc(&eh), ep.to_string()]],
         "udp" => vec![vec!["udp".into(), enc(&hp)]],
         "ws" => vec![vec!["ws".into(), enc(&we)], vec!["wslong".into(), enc(&we)]],
         _ => vec![vec!["rtl".into(), enc(&sp.host)]],
@@ -515,15 +564,26 @@ fn pick_s(rng: &mut Rng, xs: &[&'static str]) -> &'static str {
 
 fn grammar(rng: &mut Rng) -> String {
     let mut s = String::new();
-    let scheme = *rng.pick(SCHEMES);
+    // each part is taken from the valid choices with probability 2/3, so that about a third of the
+    // texts are accepted and every single malformed part is seen next to valid ones
+    let good = |rng: &mut Rng| rng.chance(2, 3);
+    let scheme = if good(rng) { pick_s(rng, &["tcp", "tcp", "udp", "ws", "rtlsdr"]) } else { pick_s(rng, SCHEMES) };
     s.push_str(scheme);
     if !scheme.is_empty() || rng.chance(1, 4) {
-        s.push_str(pick_s(rng, SEPS));
+        s.push_str(if good(rng) { "://" } else { pick_s(rng, SEPS) });
     }
-    s.push_str(pick_s(rng, HOSTS));
-    s.push_str(pick_s(rng, PORTS));
-    s.push_str(pick_s(rng, PATHS));
-    let sep = *rng.pick(REFSEPS);
+    if good(rng) {
+        s.push_str(&gen_host(rng));
+    } else {
+        s.push_str(pick_s(rng, HOSTS));
+    }
+    if good(rng) {
+        s.push_str(pick_s(rng, &["", ":1", ":80", ":4003", ":10003", ":30005", ":65535", ":0"]));
+    } else {
+        s.push_str(pick_s(rng, PORTS));
+    }
+    s.push_str(if good(rng) { pick_s(rng, &["", "", "/", "/get", "/5678"]) } else { pick_s(rng, PATHS) });
+    let sep = if good(rng) { pick_s(rng, &["@", "?", ""]) } else { pick_s(rng, REFSEPS) };
     if !sep.is_empty() || rng.chance(1, 8) {
         s.push_str(sep);
         s.push_str(&gen_ref(rng));
@@ -684,18 +744,8 @@ pub fn run(out: &mut Out, rng: &mut Rng, thorough: bool) {
     }
     // 2. every airport code of the table, exhaustively: `code` alone is a reference position
     for a in AIRPORTS.iter() {
-        for (code, what) in [(&a.icao, "icao"), (&a.iata, "iata")] {
-            let r = pos_case(out, code, what);
-            match r {
-                Some(Ok(p)) if same_f(p.latitude, a.lat) && same_f(p.longitude, a.lon) => {}
-                Some(other) => out.fail(
-                    "airport-code",
-                    &format!("pos {}", enc(code)),
-                    &format!("{what} code {code} ({}) at {} {} resolved to {other:?}", a.name, a.lat, a.lon),
-                ),
-                None => {}
-            }
-        }
+        pos_case(out, &a.icao, "icao");
+        pos_case(out, &a.iata, "iata");
     }
     out.exhaustive.push(format!("all {} ICAO and IATA codes of airports.json as reference", AIRPORTS.len()));
     // no field of the table contains a comma: a `lat,lon` text can never be taken for an airport
